@@ -30,6 +30,8 @@ deriving Repr, DecidableEq
 structure Dev (σ : Type) where
   exec : Table → σ → Line → σ × Reply
   mode : σ → Name
+  /-- a new session on the same device (the connection object is re-opened): it starts at its login level -/
+  reset : σ → σ := id
 
 /-- fixed behaviour of a mode device -/
 structure MCfg where
@@ -42,6 +44,7 @@ deriving Repr
 
 structure MDev where
   mode : Name
+  login : Name := ""                        -- the level a new session starts in
   pending : Option Name := none             -- asked for a password for the move to this level
   tries : Nat := 0
   log : List (Name × Line) := []            -- (mode at execution, line); password answers are not logged
@@ -71,6 +74,18 @@ def tableMove (t : Table) (extra : List (Name × Line × Name)) (m : Name) (line
 def classifiesPrompts : Bool :=
   Gen.Priv.classifyFlags.contains "I" && Gen.Priv.classifyFlags.contains "M"
 
+/-- **domain of the device assumption.**  `promptKey` below says: the prompt shown in level `m` is classified as
+    exactly the levels whose key equals `m`'s.  For session levels that is true of the real patterns only if no
+    session's (case-folded) key is a proper prefix of — or a case variant of — another's: the EOS session pattern is
+    `…\(config\-s\-<re.escape(name[:6])>[a-z0-9_.\-@/:+]{0,64}\)#` searched with re.I, so the prompt of session
+    `abcd` is ALSO matched by the patterns of sessions `abc` and `ABCD`, whose keys differ.  Every theorem about
+    `modeDev` is claimed for tables satisfying this (decidable) condition only; outside it see finding F24. -/
+def SessPrefixFree (t : Table) : Prop :=
+  ∀ l ∈ t, ∀ l' ∈ t, l.sess = true → l'.sess = true →
+    (l.pat.toList.map Char.toLower).isPrefixOf (l'.pat.toList.map Char.toLower) = true → l.pat = l'.pat
+
+instance (t : Table) : Decidable (SessPrefixFree t) := by unfold SessPrefixFree; infer_instance
+
 /-- share-group key of the prompt shown in mode `m` (none if classification does not search case-insensitively
     and per line: then a prompt is not guaranteed to be matched by its own level) -/
 def promptKey (t : Table) (m : Name) : List String :=
@@ -98,6 +113,8 @@ def MDev.exec (cfg : MCfg) (t : Table) (s : MDev) (line : Line) : MDev × Reply 
         else ({ s with mode := tgt }, .prompt (promptKey t tgt) false)
       | none => (s, .prompt (promptKey t s.mode) (cfg.failLines.contains line))
 
-def modeDev (cfg : MCfg) : Dev MDev := { exec := MDev.exec cfg, mode := (·.mode) }
+def modeDev (cfg : MCfg) : Dev MDev :=
+  { exec := MDev.exec cfg, mode := (·.mode),
+    reset := fun s => { s with mode := s.login, pending := none, tries := 0 } }
 
 end Scrapli.Priv
